@@ -6,7 +6,7 @@ Require Import LV.Files.TsTok LV.Files.TsParse LV.Files.TsParseBasics.
 Definition zone2 (s : pst) : Prop :=
   match s with
   | SOpt h | SOptR h | SBody h | SArg h _ | SRef h _ _ | SInfo h => h_v2 h = true
-  | SV2 _ _ | SNoise _ _ _ _ _ | SEof _ _ | SDone _ | SErr _ => True
+  | SV2 _ _ | SNoise _ _ _ _ _ | SEof _ _ | SDone _ | SErr _ | SLate _ => True
   | _ => False
   end.
 
@@ -52,6 +52,7 @@ Proof.
   - unfold eof_tok; brk; exact I.
   - exact I.
   - exact I.
+  - destruct t; exact I.
 Qed.
 
 Lemma zone2_pstep : forall s x, zone2 s -> zone2 (pstep s x).
